@@ -207,13 +207,6 @@ theorem updLoopBody_spec (habs : ∀ x : α, call "abs" [.val x] = .ok (.val (Va
       cmpDV_eq_cmp, Except.map, truthy, evalIdx_smp0, evalIdx_smp1, evalNeg, mkList2, toPayload, cmpOfDiff, encSig,
       encSmp]
 
-theorem updLoopBody_nan (env : Env α) (c : Cmp)
-    (hc : getLoc "self.comparison_op" env = .ok (.cmp c)) (hi : getLoc "update0$i" env = .ok .nan) :
-    exec call fuel updLoopBody env = .error .type := by
-  cases c <;>
-    simp [updLoopBody, updChain, opIs, ux, exec, evalE, hc, hi, evalBin, isCmp, cmpDV_eq_cmp, Except.map, truthy,
-      evalIdx_nan]
-
 def updVars : List String := ["update0$i", "update0$out_val", "update0$sample_result", "update0$prev"]
 
 theorem updLoop_spec (habs : ∀ x : α, call "abs" [.val x] = .ok (.val (Val.abs x))) (c : Cmp) (d : ASig α) :
@@ -735,7 +728,6 @@ theorem binUpdate_range (P : α → Prop) (f : α → α → α) (hP : ∀ a b, 
     have hadd : ∀ p ∈ addLast result last, P p.2 := by
       cases last with
       | nil => exact hr.1
-      | nan => exact hr.1
       | item t v =>
           simp only [addLast]
           split
@@ -754,9 +746,7 @@ theorem binUpdate_range (P : α → Prop) (f : α → α → α) (hP : ∀ a b, 
           intro p hp; exact hadd p (by rw [heq]; simp [hp])
         · exact hadd
       · exact hadd
-    split at h
-    · cases h
-    · cases h; exact hdrop
+    cases h; exact hdrop
 
 end range
 
@@ -901,8 +891,7 @@ theorem gen_iapred_construct (fuel : Nat) (c : Cmp) (vs : List (DV α)) :
   simp only [construct, hd, hn, ho, ok_bind, pure_eq_ok]
 
 /-- `update` of the interface-aware `PredicateOperation`: `binUpdate` with the subtraction, then `iaOut` (the verdicts `sat()`
-    keeps, as `±inf`) - or the exception the mirror raises (where the mirror raises the `TypeError` of `last = float('nan')`,
-    the subtraction object raises it or returns `[nan]`, on which `i[1]` of the inlined `update` raises it) -/
+    keeps, as `±inf`) - or the exception the mirror raises -/
 theorem gen_iapred_update (fuel k : Nat) (c : Cmp) (hI : InterOnSpec α fuel k)
     (hm : ∀ a b, callAt Gen.DenseOn.fns fuel (k + 1) "subtraction" [.val a, .val b] = .ok (.val (Val.sub a b) : DV α))
     (st : BinSt α) (o : DV α) (hrel : IAPredRel c st o) (sl sr : ASig α) (hfuel : binFuel st sl sr ≤ fuel) :
@@ -939,49 +928,14 @@ theorem gen_iapred_update (fuel k : Nat) (c : Cmp) (hI : InterOnSpec α fuel k)
   revert hupd
   cases hb : binUpdate (fun a b => Val.sub a b) st sl sr with
   | error e =>
-      rintro (hcall | ⟨rfl, sub', hcall⟩)
-      · have hx2 := exec_mcall2_err (callAt (α := α) Gen.DenseOn.fns fuel (k + 3)) fuel "update0$input_list" "self.sub"
-          "update" _ _ env1 _ _ "SubtractionOperation" substore e sl1 sr1 sub1 (by rw [hname]; exact hcall)
-        refine runFn_method_err _ fuel _ rfl _ store _ rfl e ?_
-        rw [IA_body]
-        show exec _ fuel iaBody (store ++ [("sample_left", encSig sl), ("sample_right", encSig sr)]) = _
-        unfold iaBody
-        rw [GOnBin.exec_seq_ok _ fuel hx1, GOnBin.exec_seq_err _ fuel hx2]
-      · -- the subtraction object has returned `[nan]`: `i[1]` of the loop raises the `TypeError`
-        have hx2 := exec_mcall2_ok (callAt (α := α) Gen.DenseOn.fns fuel (k + 3)) fuel "update0$input_list" "self.sub"
-          "update" _ _ env1 _ _ "SubtractionOperation" substore sub' (.list [.nan]) sl1 sr1 sub1
-          (by rw [hname]; exact hcall)
-        have hx3 : exec (callAt (α := α) Gen.DenseOn.fns fuel (k + 3)) fuel
-            (.setLoc "self.subtraction_output" (.loc "update0$input_list"))
-            (setLoc "update0$input_list" (.list [.nan]) (setLoc "self.sub" sub' env1)) =
-            .ok (setLoc "self.subtraction_output" (.list [.nan])
-              (setLoc "update0$input_list" (.list [.nan]) (setLoc "self.sub" sub' env1)), .none) :=
-          GOnBin.exec_setLoc _ fuel (by simp [evalE])
-        have hx4 : exec (callAt (α := α) Gen.DenseOn.fns fuel (k + 3)) fuel (.setLoc "update0$prev" .nan)
-            (setLoc "self.subtraction_output" (.list [.nan])
-              (setLoc "update0$input_list" (.list [.nan]) (setLoc "self.sub" sub' env1))) =
-            .ok (setLoc "update0$prev" .nan (setLoc "self.subtraction_output" (.list [.nan])
-              (setLoc "update0$input_list" (.list [.nan]) (setLoc "self.sub" sub' env1))), .none) :=
-          GOnBin.exec_setLoc _ fuel (by simp [evalE])
-        generalize henv4 : setLoc "update0$prev" DV.nan (setLoc "self.subtraction_output" (DV.list [DV.nan])
-          (setLoc "update0$input_list" (DV.list [DV.nan]) (setLoc "self.sub" sub' env1))) = env4 at hx4
-        have cmp4 : getLoc "self.comparison_op" env4 = .ok (.cmp c) := by
-          rw [← henv4]; simp; rw [g1 _ (by decide)]; exact getLoc_append_left hcmp
-        have il4 : evalE (callAt (α := α) Gen.DenseOn.fns fuel (k + 3)) env4 (.loc "update0$input_list") =
-            .ok (.list [.nan]) := by
-          rw [evalE, ← henv4]; simp
-        have hx5 := exec_forIn_list (callAt (α := α) Gen.DenseOn.fns fuel (k + 3)) fuel "update0$i"
-          (.loc "update0$input_list") updLoopBody env4 _ il4
-        have hb5 := updLoopBody_nan (callAt (α := α) Gen.DenseOn.fns fuel (k + 3)) fuel
-          (setLoc "update0$i" .nan env4) c (by simpa using cmp4) (by simp)
-        rw [List.map_cons, List.map_nil, forLoop_cons] at hx5
-        simp only [hb5, error_bind] at hx5
-        refine runFn_method_err _ fuel _ rfl _ store _ rfl .type ?_
-        rw [IA_body]
-        show exec _ fuel iaBody (store ++ [("sample_left", encSig sl), ("sample_right", encSig sr)]) = _
-        unfold iaBody iaRest
-        rw [GOnBin.exec_seq_ok _ fuel hx1, GOnBin.exec_seq_ok _ fuel hx2, GOnBin.exec_seq_ok _ fuel hx3,
-          GOnBin.exec_seq_ok _ fuel hx4, GOnBin.exec_seq_err _ fuel hx5]
+      intro hcall
+      have hx2 := exec_mcall2_err (callAt (α := α) Gen.DenseOn.fns fuel (k + 3)) fuel "update0$input_list" "self.sub"
+        "update" _ _ env1 _ _ "SubtractionOperation" substore e sl1 sr1 sub1 (by rw [hname]; exact hcall)
+      refine runFn_method_err _ fuel _ rfl _ store _ rfl e ?_
+      rw [IA_body]
+      show exec _ fuel iaBody (store ++ [("sample_left", encSig sl), ("sample_right", encSig sr)]) = _
+      unfold iaBody
+      rw [GOnBin.exec_seq_ok _ fuel hx1, GOnBin.exec_seq_err _ fuel hx2]
   | ok r =>
       obtain ⟨st', d⟩ := r
       rintro ⟨sub', hcall, hrel'⟩
